@@ -34,8 +34,8 @@ theorem guards_present : sourceFixes = Fixes.all := by decide
 
 /-- the constants the model hard-codes are the ones in the source -/
 theorem constants_pinned :
-    Gen.C02Recv.defaultMaxAge = 900 ∧ Gen.C02Recv.locationPrefix = ofString "http"
-    ∧ Gen.C02Recv.badLocationNeedles = [ofString "://127.0.0.1", ofString "://[::1]", ofString "://169.254"] ∧ Gen.C02Recv.mxCap = 5
+    Gen.C02Recv.defaultMaxAge = 900 ∧ Gen.C02Recv.locationTest = ofString "is_usable_location"
+    ∧ Gen.C02Recv.mxCap = 5
     ∧ Gen.C02Recv.jitterLo = 100 ∧ Gen.C02Recv.jitterHiOffset = 250
     ∧ Gen.C02Recv.searchRequestLine = ofString "M-SEARCH * HTTP/1.1" ∧ Gen.C02Recv.discover = discover
     ∧ Gen.C02Recv.ntsAlive = ofString "ssdp:alive" ∧ Gen.C02Recv.ntsByebye = ofString "ssdp:byebye"
